@@ -14,7 +14,15 @@ MAX_REPORTS = 25     # replay records written per direction and run
 
 
 def classify(rec):
-    """Narrow keys of known findings (none for C01)."""
+    """Narrow keys of known findings.
+
+    The harness sets `addrform` only when the outcome is not admissible although the very
+    same request, sent right afterwards from the same client with the PLAIN form of its
+    address, is: the form in which the client's address arrives makes the difference."""
+    if rec.get("addrform") == "zoned":
+        return "client-rule-zoned-address"
+    if rec.get("addrform") == "mapped":
+        return "client-rule-mapped-address"
     return None
 
 
@@ -93,6 +101,9 @@ def generate(ctx):
 
 
 def run(ctx):
+    # the source addresses of the requests also arrive zoned (link-local IPv6) and
+    # IPv4-mapped: the same clients, abstractly nothing changes
+    cm.EXTRA_ENV["VERIF_ADDRFORMS"] = "1"
     cm.model_check(ctx)
     hdr, cfgs = generate(ctx)
     nq = len(hdr["queries"])
@@ -120,10 +131,21 @@ def run(ctx):
     for w in rng.sample(walks, min(udp_n, len(walks))):
         w["udp"] = True
     confirmed, st = cm.replay_with_confirmation(ctx, TEST_REPLAY, cm.FILES01, hdr, walks, "c01")
-    for b in confirmed[:MAX_REPORTS]:
-        ctx.disagreement(classify(b), b, "C01: %s%s -- observed %s, spec admits %s (rule lists over the server's life: %s)" % (
+    # unclassified disagreements first; a known finding is reported once per key
+    keyed, seen_keys = [], set()
+    for b in confirmed:
+        k = classify(b)
+        if k is None:
+            keyed.append((k, b))
+        elif k not in seen_keys:
+            seen_keys.add(k)
+            keyed.append((k, b))
+    keyed.sort(key=lambda kb: kb[0] is not None)
+    for k, b in keyed[:MAX_REPORTS]:
+        ctx.disagreement(k, b, "C01: %s%s -- observed %s, spec admits %s (rule lists over the server's life: %s)" % (
             b["concrete"], " (asked before)" if b.get("rep") else "", json.dumps(b["got"]), json.dumps(b["want"]),
             json.dumps(b["history"])))
+    addrform_bad = sum(1 for b in confirmed if classify(b) is not None)
 
     # Direction B
     n_cfg = 150 if ctx.quick else 700
@@ -165,7 +187,8 @@ def run(ctx):
         "traces_validated_against_impl": st["configs"] + trace_q,
         "configurations_generated": len(cfgs), "configurations_replayed": len(sel),
         "live_servers": st["walks"], "configuration_visits": st["configs"],
-        "reconfigurations_on_live_servers": st["reconfigurations"], "failed_rebuilds_injected": st["faults"], "configurations_with_cache": cached,
+        "reconfigurations_on_live_servers": st["reconfigurations"], "failed_rebuilds_injected": st["faults"],
+        "disagreements_attributed_to_address_form": addrform_bad, "configurations_with_cache": cached,
         "evaluations": st["evals"] + trace_q,
         "queries_per_configuration": nq,
         "distinct_nontrivial": sel_nt, "nontrivial_in_universe": len(nt),
@@ -187,6 +210,7 @@ def run(ctx):
 
 def replay(ctx, path):
     rec = json.load(open(path))["record"]
+    cm.EXTRA_ENV["VERIF_ADDRFORMS"] = "1"
     if "walk" in rec:      # direction A
         return cm.replay_stored_walk(ctx, TEST_REPLAY, cm.FILES01, rec, "c01r")
     return cm.replay_trace_record(ctx, TEST_TRACE, cm.FILES01, rec, "c01r")
